@@ -56,7 +56,8 @@ def families(tier, seed):
     lim = 5 if tier == 'quick' else 17
     for lo in range(-lim, lim + 1):
         for hi in range(lo, lim + 1):
-            sh = Shape(sys=dict(x=(lo, hi), b='bool'), name=f'x:{lo}..{hi}')
+            sh = Shape(sys=dict(x=(lo, hi), b='bool'), const=dict(k=(0, 2)),
+                       name=f'x:{lo}..{hi} constant k:0..2')
             out.append(_w('hint formulas / implies_type_hints', ph.h_hint_formulas, sh,
                           dict(hint=(lo, hi))))
     return out
